@@ -7,7 +7,8 @@ SIGS_IN = {'': [], 'i': [7], 's': ['txt'], 'ii': [1, 2], 'as': [['a', 'b']], '(i
 SIGS_OUT = ['', 'i', 's', 'is', 'ai', '(ii)', 'as', '(s)', 'a(is)']       # the last three: ONE container-typed return value holding one element
 OUT_VALUE = {'': None, 'i': 5, 's': 'res', 'is': (4, 'four'), 'ai': [1, 2, 3], '(ii)': (1, 2), 'as': ['only'], '(s)': ('one',), 'a(is)': [(1, 'x')]}
 OUT_CANON = {'': None, 'i': [5], 's': ['res'], 'is': [4, 'four'], 'ai': [[1, 2, 3]], '(ii)': [[1, 2]], 'as': [['only']], '(s)': [['one']], 'a(is)': [[[1, 'x']]]}
-OUTCOMES = ['value', 'deferred', 'deferred_fail', 'raise_named', 'raise_plain', 'raise_badname', 'raise_nul', 'raise_oddclass', 'unencodable']
+OUTCOMES = ['value', 'deferred', 'deferred_fail', 'raise_named', 'raise_plain', 'raise_badname', 'raise_nul', 'raise_oddclass', 'unencodable',
+            'raise_notimpl', 'raise_typeerror', 'deferred_fail_notimpl']
 
 
 class Conn:
@@ -75,6 +76,16 @@ def build_scenario(rnd):
                 raise ValueError('text with a \0 byte')
             if outcome == 'raise_oddclass':
                 raise OddClassError('odd')
+            # exception classes the dispatcher itself uses for its own decisions: raised BY THE IMPLEMENTATION they are ordinary
+            # failures of the call, named after their class, with their text
+            if outcome == 'raise_notimpl':
+                raise NotImplementedError('subclass hook of impl %d' % impl_id)
+            if outcome == 'raise_typeerror':
+                raise TypeError('bad operand in impl %d' % impl_id)
+            if outcome == 'deferred_fail_notimpl':
+                d = defer.Deferred()
+                pending.append((d, 'fail', NotImplementedError('later, impl %d' % impl_id)))
+                return d
             if outcome == 'unencodable':
                 return object()
         if wants_caller:
@@ -247,11 +258,14 @@ def one_call(rnd, sc, serial):
         return None
     want_err = {'deferred_fail': 'org.verif.Error.Named', 'raise_named': 'org.verif.Error.Named', 'raise_plain': 'org.txdbus.PythonException.KeyError',
                 'raise_badname': 'org.txdbus.InvalidErrorName', 'raise_nul': 'org.txdbus.PythonException.ValueError',
-                'raise_oddclass': 'org.txdbus.InvalidErrorName'}.get(outcome)
+                'raise_oddclass': 'org.txdbus.InvalidErrorName', 'raise_notimpl': 'org.txdbus.PythonException.NotImplementedError',
+                'raise_typeerror': 'org.txdbus.PythonException.TypeError', 'deferred_fail_notimpl': 'org.txdbus.PythonException.NotImplementedError'}.get(outcome)
     if type(r).__name__ != 'ErrorMessage':
         return '%s (outcome %s): reply is %s, expected an error' % (what, outcome, type(r).__name__)
     if want_err and r.error_name != want_err:
         return '%s (outcome %s): error reply named %r, expected %r' % (what, outcome, r.error_name, want_err)
+    if outcome in ('raise_notimpl', 'raise_typeerror', 'deferred_fail_notimpl') and not (r.body and 'impl' in str(r.body[0])):
+        return '%s (outcome %s): the error reply carries %r, not the text of the exception' % (what, outcome, r.body)
     return None
 
 
